@@ -166,6 +166,8 @@ where
     program: Program,
     row: LineRow,
     instructions: LineInstructions<R>,
+    // True if a row has been returned for the current sequence.
+    sequence_has_rows: bool,
 }
 
 type OneShotLineRows<R, Offset = <R as Reader>::Offset> =
@@ -189,6 +191,7 @@ where
             program,
             row,
             instructions,
+            sequence_has_rows: false,
         }
     }
 
@@ -202,6 +205,7 @@ where
             program,
             row,
             instructions,
+            sequence_has_rows: false,
         }
     }
 
@@ -233,12 +237,17 @@ where
                 Ok(None) => return Ok(None),
                 Ok(Some(instruction)) => {
                     if self.row.execute(instruction, &mut self.program)? {
-                        if self.row.tombstone {
+                        if self.row.tombstone && !(self.row.end_sequence && self.sequence_has_rows)
+                        {
                             // Perform any reset that was required for the tombstone row.
                             // Normally this is done when `next_row` is called again, but for
                             // tombstones we loop immediately.
                             self.row.reset(self.program.header());
                         } else {
+                            // If only part of a sequence is a tombstone, then the end of
+                            // sequence row is still returned, so that the rows that were
+                            // already returned for this sequence are properly terminated.
+                            self.sequence_has_rows = !self.row.end_sequence;
                             return Ok(Some((self.header(), &self.row)));
                         }
                     }
